@@ -163,6 +163,8 @@ pub mod bbsplus_utils {
     where
         CS::Expander: for<'a> ExpandMsg<'a>,
     {
+        #[cfg(zkryptium_verif)]
+        crate::verif_hooks::tick("phase:calculate_domain");
         let header = header.unwrap_or(b"");
 
         // 1. L = length(H_Points)
@@ -417,6 +419,8 @@ pub mod bbsplus_utils {
         CS: BbsCiphersuite,
         CS::Expander: for<'a> ExpandMsg<'a>,
     {
+        #[cfg(zkryptium_verif)]
+        crate::verif_hooks::tick("phase:calculate_blind_challenge");
         if generators.len() == 0 {
             return Err(Error::NotEnoughGenerators);
         }
